@@ -93,3 +93,8 @@ chk('C18', 'exploration',
     'Connectivity oracle in mc/refmodels/schem.py trusted; set-iteration orders inside schematic.py are pinned to two orders; routed polylines (pixels) are not inspected; n >= 3 only on the stated sub-spaces.',
     'bounded exhaustive netlist enumeration with a structural connectivity oracle',
     'DESIGN.md 4/C18')
+chk('C20', 'model_checking',
+    'CMDRequest: explicit-state BFS of the decoder with an environment that, every cycle, either idles or offers any character the command grammar allows next and holds it until taken (all streams and all idle gaps at once, identical product states merged), and a pulse monitor that attributes every rising edge of the five action strobes to the command just completed and checks the numbers on the data wires; CMDResponse: BFS with a free consumer ready every cycle over a grid of values and sizes and two consecutive responses, the transferred characters must spell "=" + upper-case hex + "!"; thorough adds the closed loop through the UART blocks.',
+    'Reference codecs in mc/refmodels/proto_hil.py trusted; command alphabets, digit counts and stream lengths bounded as listed in the check\'s BOUNDS; upper-case hex only (the docstring does not define lower case).',
+    'explicit-state model checking of the implementation against a reference codec/monitor with all handshake timings',
+    'DESIGN.md 4/C20')
